@@ -26,7 +26,8 @@ RULE = (
     "x*c, x%c, keccak of words / of dynamic content, array length and elements, storage written by setUp, optional vm.assume; "
     "every second contract also has a counted loop with a symbolic trip count (while-shaped, and do-while-shaped whose back edge is "
     "the taken JUMPI side) failing only after exactly k iterations, run with a per-function --loop below / above k; "
-    "failures behind a JUMP to a JUMPDEST that follows a PUSH32 constant with embedded PUSH-opcode bytes (EIP-1967 slot, random); "
+    "guards on a memory word stored in the tail of a call's output window when the callee (identity precompile / helper contract) "
+    "returns fewer bytes than the window; failures behind a JUMP to a JUMPDEST that follows a PUSH32 constant with embedded PUSH-opcode bytes (EIP-1967 slot, random); "
     "value-bearing CALLs (symbolic value) to reverting / accepting / conditionally reverting callees deployed by setUp, the failure "
     "swallowed, with assertions on balance(this) / balance(callee) that hold only with or only without the refund; "
     "tests where one sibling path learns x == c1 and the other re-reads x from calldata and fails for x == c2 (flat / nested, "
@@ -244,7 +245,7 @@ def make_jobs(ctx, specs, combos, sweep=40):
                 gen = e2e.gen_contract(random.Random(seed), name=name, pool=kw.get("pool", ()), ntests=kw.get("ntests", 3),
                                    bytes_sizes=kw.get("bytes_sizes"), array_sizes=kw.get("array_sizes"),
                                    panic_codes=kw.get("gen_panic_codes", (1,)), touch=kw.get("touch", False),
-                                   loops=kw.get("loops", False), siblings=kw.get("siblings"), subst=kw.get("subst"), jumps=kw.get("jumps"))
+                                   loops=kw.get("loops", False), siblings=kw.get("siblings"), subst=kw.get("subst"), jumps=kw.get("jumps"), tails=kw.get("tails"))
             cfg = {}
             if kw.get("panic_error_codes") is not None:
                 cfg["panic_error_codes"] = kw["panic_error_codes"]
@@ -431,6 +432,9 @@ def correspond(ctx):
     specs.append((41, "Jump0", {"pool": pool, "ntests": 0, "jumps": {"K": e2e.EIP1967_IMPL_SLOT, "use_k": "sload"}}))
     specs.append((42, "Jump1", {"pool": pool, "ntests": 0, "jumps": {"use_k": "pop"}}))
     specs.append((43, "Jump2", {"pool": pool, "ntests": 0, "jumps": {"use_k": "none"}}))
+    # directed: a guard on the memory word in the untouched tail of a call's output window
+    specs.append((51, "Tail0", {"pool": pool, "ntests": 0, "tails": {"callee": "identity", "op": "STATICCALL"}}))
+    specs.append((52, "Tail1", {"pool": pool, "ntests": 0, "tails": {"callee": "helper", "op": "CALL"}}))
     # directed: value-bearing CALLs whose failure is swallowed, assertions on balances (refund of the value of a failed call)
     specs.append((31, "Val0", {"pool": pool, "value": [["revert", "self-minus-v"], ["revert", "self-same"], ["accept", "self-same"]]}))
     specs.append((32, "Val1", {"pool": pool, "value": [["odd-reverts", "callee-zero"], ["invalid", "callee-eq-v"], ["odd-reverts", "self-minus-v"]]}))
@@ -466,6 +470,8 @@ def correspond(ctx):
             kw["subst"] = True
         if i % 4 == 2:
             kw["jumps"] = True
+        if i % 4 == 0:
+            kw["tails"] = True
         if i % 8 == 6:
             kw = {"pool": pool, "value": True}
         if i % 6 == 5:
